@@ -1,8 +1,8 @@
 SPECIFICATION Spec
-CONSTANTS NAsg = 5
- NGrd = 4
- NAnn = 5
- NPre = 3
+CONSTANTS NAsg = 4
+ NGrd = 3
+ NAnn = 3
+ NPre = 2
  NPost = 5
  Deep = FALSE
 INVARIANT Sound
